@@ -101,6 +101,7 @@ def generate(contract, callees=None):
     fd, path = load_funcdef(contract.module, contract.name)
     cal = dict(DEFAULT_CALLEES)
     cal.update(callees or {})
+    cal.update(getattr(contract, 'callees', None) or {})
     eng = Engine(contract, fd, cal)
     obls = eng.run()
     for o in obls:
